@@ -29,14 +29,14 @@ func verifLinuxScenario(host string, issue bool) *vfsim.Scenario {
 		Prompt:   "router#",
 		Preamble: "netspoc@10.1.13.33's password: <!noecho>\nLinux router 3.2.89\nroot@linux-router:~#",
 		Cmds: map[string]string{
-			"echo $?":                        "0\n",
-			"uname -r":                       "3.2.89-2.custom\n",
-			"uname -m":                       "i686\n",
-			"hostname -s":                    host + "\n",
-			"grep 'NetSPoC' /etc/issue":      issueLine,
-			"which iptables-restore":         "/sbin/iptables-restore\n",
-			"ip route show":                  "0.0.0.0/0 via 10.1.1.1\n10.9.0.0/24 dev eth0 proto kernel scope link src 10.9.0.1\n",
-			"iptables-save":                  "*filter\n:INPUT DROP\n-A INPUT -j ACCEPT -s 10.1.11.111 -d 10.10.1.2 -p tcp --dport 23\nCOMMIT\n",
+			"echo $?":                   "0\n",
+			"uname -r":                  "3.2.89-2.custom\n",
+			"uname -m":                  "i686\n",
+			"hostname -s":               host + "\n",
+			"grep 'NetSPoC' /etc/issue": issueLine,
+			"which iptables-restore":    "/sbin/iptables-restore\n",
+			"ip route show":             "0.0.0.0/0 via 10.1.1.1\n10.9.0.0/24 dev eth0 proto kernel scope link src 10.9.0.1\n",
+			"iptables-save":             "*filter\n:INPUT DROP\n-A INPUT -j ACCEPT -s 10.1.11.111 -d 10.10.1.2 -p tcp --dport 23\nCOMMIT\n",
 		},
 		FaultPos: -1,
 	}
